@@ -117,6 +117,26 @@ def prefix_shadow(tbl):
     return False
 
 
+def infix_shadow(tbl):
+    """signature region of `infix_op_prefix_and_remainder_starts_operand`: an operator met in operator position (binary,
+    ternary, postfix) whose spelling `a` is a proper prefix of another spelling `b`, where the remainder b[len(a):] can
+    begin an operand (it is prefix-comparable with a prefix operator or lpar, or starts with an operand character)"""
+    starts = [lv["op1"] for lv in tbl["levels"] if level_kind(lv) == "R1"] + [tbl["lpar"]]
+    inop = []
+    for lv in tbl["levels"]:
+        if level_kind(lv) != "R1":
+            inop.append(lv["op1"])
+            if lv["arity"] == 3:
+                inop.append(lv["op2"])
+    for a in inop:
+        for b in spellings(tbl):
+            if b != a and b.startswith(a):
+                r = b[len(a):]
+                if r[0] in tbl["base"] or any(x.startswith(r) or r.startswith(x) for x in starts):
+                    return True
+    return False
+
+
 def gen_table(rng, overlapping=False, max_levels=6, acts=False, kinds=None, pars=False):
     base = rng.choice(["0123456789", "0123456789", "abc", "xyz01"])
     pool = list(SYM_POOL)
@@ -155,7 +175,7 @@ def gen_table(rng, overlapping=False, max_levels=6, acts=False, kinds=None, pars
                 tbl["lsup"], tbl["rsup"] = rng.choice([(True, True), (False, False), (False, False), (True, False), (False, True)])
             if any(s[0] in base for s in spellings(tbl)):
                 continue
-            if postfix_shadow(tbl) or prefix_shadow(tbl):
+            if postfix_shadow(tbl) or prefix_shadow(tbl) or infix_shadow(tbl):
                 continue  # registered finding: only its witness touches that region
             return tbl
     return dict(base="0123456789", levels=[dict(arity=2, right=False, op1="+", op2="", acts=[])], lpar="(", rpar=")",
